@@ -23,6 +23,9 @@ def run(ck, ctx):
     ck.rule("R03.4", "keyspace-wide commands fan out: KEYS/SCAN/DBSIZE/FLUSHDB/FLUSHALL/INFO/RANDOMKEY arms iterate over all shards")
     ck.rule("R03.6", "one clock for every shard: every shard call made by ShardedActorState::execute is ShardHandle::execute(cmd, "
                      "virtual_time) with the virtual time read once at entry (no time-less fast-path message inside generic dispatch)")
+    ck.rule("R03.7", "no shard-local shadow of process-wide state: the executor-local script cache is touched only when no shared script "
+                     "cache is configured (with N shards a script cached by one shard's EVAL must be known to EVALSHA / SCRIPT EXISTS / "
+                     "SCRIPT FLUSH on every shard)")
     ck.nd("equality of replies for arbitrary command sequences (needs execution); aggregation arithmetic")
     for cfg in ctx.configs:
         prog = ctx.prog(cfg)
@@ -32,6 +35,7 @@ def run(ck, ctx):
         _r032(ck, prog, cfg)
         _r033_034(ck, prog, cfg)
         _r036(ck, prog, cfg)
+        _r037(ck, prog, cfg)
 
 
 def _hash_sig(prog, fn, seen=None):
@@ -157,6 +161,28 @@ def _r032(ck, prog, cfg):
                     ok, why = False, why1
             ck.check(ok, "R03.2", key, "a shard is selected by an index that is not derived from the served key: %s" % why,
                      f.where(t["ln"]), detail="index = " + i.path()[:80])
+    # per-shard bucket vectors (`vec![..; self.num_shards]`): the slot a key is put into is hash_key*(key, num_shards) - the same
+    # function every other path uses - because the slot number is later used as the shard number (direct enumerate)
+    nb = 0
+    for f in prog.lib_fns():
+        if f.file != "src/production/sharded_actor.rs":
+            continue
+        for b, t in f.calls():
+            if not is_callee(t, r"IndexMut<.*>>::index_mut$", r"Index<.*>>::index$") or len(t["args"]) < 2:
+                continue
+            r = src_of_operand(f, t["args"][0], through_calls=TRANSPARENT + (r"DerefMut>::deref_mut$", r"Deref>::deref$"))
+            if not (r.kind == "call" and is_callee(r.term, r"vec::from_elem")):
+                continue
+            cnt = r.term["args"][1] if len(r.term["args"]) > 1 else None
+            if cnt is None or not _num_shards_src(f, cnt):
+                continue
+            nb += 1
+            i = src_of_operand(f, t["args"][1])
+            okb = i.kind == "call" and is_callee(i.term, r"sharded_actor::hash_key(_bytes)?$") and _num_shards_src(f, i.term["args"][1])
+            ck.check(okb, "R03.2", "%s:bucket-slot#%d%s" % (f.id.replace(SA, ""), nb, _tag(cfg)),
+                     "a key is put into a per-shard bucket whose number is not hash_key*(key, num_shards) (%s): the batch path sends the key to a "
+                     "different shard than the single-key paths do" % i.path()[:80], f.where(t["ln"]), detail="slot = hash_key_bytes(key, num_shards)")
+    ck.floor("R03.2-buckets" + _tag(cfg), nb, 2)
     ck.floor("R03.2" + _tag(cfg), n, 13)
 
 
@@ -357,3 +383,31 @@ def _r036(ck, prog, cfg):
             ck.check(good, "R03.6", key, "shard call does not pass the virtual time read at entry (%s)" % vt.path(), f.where(t["ln"]),
                      detail="ShardHandle::execute(cmd, virtual_time)")
     ck.floor("R03.6" + _tag(cfg), n, 10)
+
+
+def _r037(ck, prog, cfg):
+    fns = [f for f in prog.lib_fns() if f.file == "src/redis/executor/script_ops.rs"]
+    n = 0
+    for f in fns:
+        for b, t in f.calls():
+            if not t["args"] or "c" in t["args"][0]:
+                continue
+            r = src_of_operand(f, t["args"][0], through_calls=TRANSPARENT + (r"Deref>::deref$", r"DerefMut>::deref_mut$"))
+            if not (r.kind == "path" and r.root == "self" and r.fields[:1] == ("script_cache",)):
+                continue
+            n += 1
+            # must sit on the None edge of `self.shared_script_cache`
+            guarded = False
+            for g in lib2.guards(f, b):
+                si = g["si"]
+                if si and si["kind"] == "discr" and si["ty"].startswith("std::option::Option<") and si["src"].kind == "path" and \
+                        si["src"].root == "self" and "shared_script_cache" in si["src"].fields:
+                    if g["value"] == "0" or (g["value"] == "else" and "0" not in g["neg_values"]):
+                        guarded = True
+            meth = callee(t).rsplit("::", 1)[-1].split("<")[0]
+            ck.check(guarded, "R03.7", "%s:script_cache.%s%s" % (re.sub(r"\{closure#\d+\}", "{closure}", f.id).rsplit("::", 1)[-1], meth, _tag(cfg)),
+                     "the executor-local script cache is used (%s) although a shared script cache may be configured: with more than one shard the "
+                     "script is known to one shard only (EVALSHA/SCRIPT EXISTS on another shard answer differently than with one shard)" % meth,
+                     f.where(t["ln"]), detail="only on the `shared_script_cache == None` edge")
+    if cfg != "nodefault" or n:
+        ck.floor("R03.7" + _tag(cfg), n, 3)
